@@ -80,7 +80,7 @@ func runHistory(t *rapid.T, rec *ev.Rec, forceNestedEmptyDex bool) {
 	defer h.sim.Close()
 	procs := rapid.SampledFrom([]int{1, 4, 16}).Draw(t, "GOMAXPROCS")
 	defer runtime.GOMAXPROCS(runtime.GOMAXPROCS(procs))
-	nested := forceNestedEmptyDex || rapid.IntRange(0, 99).Draw(t, "nestedPct") < 35
+	nested := forceNestedEmptyDex || rapid.SampledFrom([]bool{false, false, true}).Draw(t, "nested")
 	h.w = nodesim.GenWorld(t, 1)
 	h.ring = nodesim.NewKeyRing(h.w.NVals + h.w.Spare)
 	cs.Class(fmt.Sprintf("GOMAXPROCS=%d", procs))
@@ -340,7 +340,12 @@ func (h *hist) height(syncLockstep bool) {
 		reps := 1 + h.t_int(0, 1, "repeat:"+label)
 		for r := 0; r < reps; r++ {
 			if r > 0 {
-				n.AbandonRound()
+				// the same proposal validated again, with or without the round having been abandoned in between
+				if h.t_int(0, 1, "abandonBetween:"+label) == 0 {
+					n.AbandonRound()
+				} else {
+					h.cs.Class("validate-twice-without-reset-in-between")
+				}
 				h.cs.Class("path-repeated")
 			}
 			br, e := n.Validate(p.RcBuildHeight, qc)
